@@ -11,6 +11,7 @@ import (
 	"github.com/bufbuild/protocompile/linker"
 	"github.com/pentops/golib/gl"
 	"github.com/pentops/j5/gen/j5/sourcedef/v1/sourcedef_j5pb"
+	"github.com/pentops/j5/internal/bcl/errpos"
 	"github.com/pentops/j5/internal/j5s/j5convert"
 	"github.com/pentops/log.go/log"
 	"golang.org/x/exp/maps"
@@ -62,17 +63,67 @@ func newPackage(name string) *Package {
 	return pkg
 }
 
-func (pkg *Package) includeIO(summary *j5convert.FileSummary, deps map[string]struct{}) {
+// dependencySource is the place where a local source file names a package it
+// depends on. A failure to load that package is reported there.
+type dependencySource struct {
+	file *SourceFile
+	pos  *errpos.Position
+}
+
+// locate gives err the position of the dependency in the source file, unless
+// it already has a position: an error from further down the import chain, or
+// from the source of the dependency itself, is more specific.
+func (ds *dependencySource) locate(err error) error {
+	if ds == nil {
+		return err
+	}
+	if _, ok := errpos.AsErrorsWithSource(err); ok {
+		return err
+	}
+	if errpos.GetErrorPosition(err) != nil {
+		return err
+	}
+	pos := *ds.pos
+	pos.Filename = &ds.file.Filename
+	return &errpos.Err{
+		Pos: &pos,
+		Err: err,
+	}
+}
+
+// packageDependencies are the packages the files of a package depend on, with
+// the first place a local source file names each (nil when not known).
+type packageDependencies map[string]*dependencySource
+
+func (pd packageDependencies) add(pkgName string, source *SourceFile, summary *j5convert.FileSummary) {
+	if existing, ok := pd[pkgName]; ok && existing != nil {
+		return
+	}
+	pd[pkgName] = nil
+	if source == nil {
+		return
+	}
+	if pos, ok := summary.DependencyPositions[pkgName]; ok {
+		pd[pkgName] = &dependencySource{
+			file: source,
+			pos:  pos,
+		}
+	}
+}
+
+// includeIO adds the exports and dependencies of a file to the package. source
+// is set when the file is a local source file.
+func (pkg *Package) includeIO(summary *j5convert.FileSummary, deps packageDependencies, source *SourceFile) {
 	for _, exp := range summary.Exports {
 		pkg.Exports[exp.Name] = exp
 	}
 
 	for _, ref := range summary.TypeDependencies {
-		deps[ref.Package] = struct{}{}
+		deps.add(ref.Package, source, summary)
 	}
 	for _, file := range summary.FileDependencies {
 		dependsOn := j5convert.PackageFromFilename(file)
-		deps[dependsOn] = struct{}{}
+		deps.add(dependsOn, source, summary)
 	}
 }
 
@@ -253,13 +304,13 @@ func (ps *PackageSet) loadPackage(ctx context.Context, rb *resolveBaton, name st
 	return pkg, nil
 }
 
-func (ps *PackageSet) resolveDependencies(ctx context.Context, rb *resolveBaton, pkg *Package, deps map[string]struct{}) error {
+func (ps *PackageSet) resolveDependencies(ctx context.Context, rb *resolveBaton, pkg *Package, deps packageDependencies) error {
 	delete(deps, pkg.Name)
 	pkg.DirectDependencies = map[string]*Package{}
-	for dep := range deps {
+	for dep, source := range deps {
 		depPkg, err := ps.loadPackage(ctx, rb, dep)
 		if err != nil {
-			return fmt.Errorf("loadPackage %s: %w", dep, err)
+			return source.locate(fmt.Errorf("loadPackage %s: %w", dep, err))
 		}
 		pkg.DirectDependencies[dep] = depPkg
 	}
@@ -275,14 +326,14 @@ func (ps *PackageSet) loadLocalPackage(ctx context.Context, rb *resolveBaton, na
 
 	pkg := newPackage(name)
 
-	deps := map[string]struct{}{}
+	deps := packageDependencies{}
 	for _, filename := range fileNames {
 		file, err := ps.localResolver.getFile(ctx, filename, rb.errs)
 		if err != nil {
 			return nil, fmt.Errorf("GetLocalFile %s: %w", filename, err)
 		}
 		pkg.SourceFiles = append(pkg.SourceFiles, file)
-		pkg.includeIO(file.Summary, deps)
+		pkg.includeIO(file.Summary, deps, file)
 	}
 
 	err = ps.resolveDependencies(ctx, rb, pkg, deps)
@@ -323,10 +374,10 @@ func (ps *PackageSet) loadExternalPackage(ctx context.Context, rb *resolveBaton,
 
 	pkg := newPackage(name)
 
-	deps := map[string]struct{}{}
+	deps := packageDependencies{}
 	for _, file := range files {
 		pkg.Files[file.Summary.SourceFilename] = file
-		pkg.includeIO(file.Summary, deps)
+		pkg.includeIO(file.Summary, deps, nil)
 	}
 
 	err = ps.resolveDependencies(ctx, rb, pkg, deps)
